@@ -288,6 +288,49 @@ _SMOKE = dict(sig=0, how=0, s0=True, s1=True, s2=True, s3=True, so=True, sx=True
               vo=5, vx=6, vv=7, nest=0, npos=0, xn=0)
 
 
+import dataclasses as _dc
+
+
+@_dc.dataclass
+class KeepOrder:
+  """Unhashable callable instance (a dataclass with eq and without frozen has __hash__ = None)."""
+  k: int = 0
+
+  def __call__(self, x, y=20):
+    return ('keep', x, y)
+
+
+@_dc.dataclass
+class SwapOrder:
+  k: int = 0
+
+  def __call__(self, y, x=20):
+    return ('swap', x, y)
+
+
+def c01_unhashable(n: int, v: int) -> bool:
+  """
+  Short-lived unhashable callable instances with different call signatures, configured and built one after the other:
+  each build equals the direct call (a per-callable cache must not outlive its callable).  Address reuse needs real
+  garbage collection, so what can go wrong here shows in the concrete smoke run (n = 300), not on symbolic paths.
+  require: 1 <= n <= 300
+  """
+  for c in (1, 2, 4, 300):
+    if n == c:
+      n = c
+      break
+  else:
+    n = 1
+  note('c01u', n)
+  for i in range(n):
+    inst = (KeepOrder if i % 2 == 0 else SwapOrder)(i)
+    cfg = fdl.Config(inst, v + i, 2)
+    if cfg[:] != [v + i, 2] or fdl.build(cfg) != inst(v + i, 2):
+      return False
+    del cfg, inst
+  return True
+
+
 def obligations(tier, seed):
   import random
   rng = random.Random(seed)
@@ -343,4 +386,6 @@ def obligations(tier, seed):
                  smoke=dict(case=0, v=3, late=False)),
       Obligation('c01_missing', c01_missing, [Cube(f'c{c}', [], dict(case=c)) for c in range(5)], timeout=60,
                  smoke=dict(case=0, v=3)),
+      Obligation('c01_unhashable', c01_unhashable, [Cube(f'n{n}', [], dict(n=n)) for n in (1, 2, 4)], timeout=120,
+                 smoke=dict(n=300, v=3)),
   ]
